@@ -97,12 +97,73 @@ def check(prog: Program, tier: str) -> Result:
             res.violation("R19.1", f"{name}|hours-per-month", prog.loc(fi, hy[0]) if hy else prog.loc(fi, fi.node), q, "the hours per month are not 24 * days of the month")
     # closed forms.  Roles are read off the code: the month table DIY (literal), its hours list HIY (comprehension over DIY),
     # the search loop over DIY with its break-branch (MON = index) and, for ghe_time_convert, the running sum of the else-branch
+    def helper_roles(fi_, diy, hiy):
+        """the month search extracted into a helper:  MON, ELAPSED = <helper>(HIY, X)  with the helper returning
+        (index, hours accumulated before that month) from inside its loop"""
+        from ..model import as_increment, bind_args
+        from ..paths import negate
+
+        fn_ = fi_.node
+        site = None
+        for k_, s_ in enumerate(fn_.body):
+            if isinstance(s_, ast.Assign) and len(s_.targets) == 1 and isinstance(s_.targets[0], ast.Tuple) and len(s_.targets[0].elts) == 2 \
+                    and all(isinstance(e_, ast.Name) for e_ in s_.targets[0].elts) and isinstance(s_.value, ast.Call):
+                nm = (attr_chain(s_.value.func) or "").split(".")[-1]
+                cands = [f for q_, f in prog.funcs.items() if f.name == nm and f.module == fi_.module]
+                if len(cands) == 1:
+                    site = (k_, s_, cands[0])
+        if site is None:
+            raise AnalysisError(f"{fi_.qualname}: month table / hours list / search loop not found")
+        k_, call_stmt, h = site
+        b = bind_args(h, call_stmt.value)
+        hps = [p_ for p_ in h.params() if p_ not in ("self", "cls")]
+        if len(hps) != 2 or set(b) != set(hps) or ast.unparse(b[hps[0]]) != hiy:
+            raise AnalysisError(f"{fi_.qualname}: call of the month-search helper {h.name} not understood")
+        ph, px = hps
+        hl = next((n for n in h.node.body if isinstance(n, ast.For)), None)
+        if hl is None or not (isinstance(hl.iter, ast.Call) and attr_chain(hl.iter.func) == "enumerate" and ast.unparse(hl.iter.args[0]) == ph
+                              and isinstance(hl.target, ast.Tuple) and len(hl.target.elts) == 2 and all(isinstance(e_, ast.Name) for e_ in hl.target.elts)):
+            raise AnalysisError(f"{h.qualname}: search loop shape not understood")
+        idx, mh = hl.target.elts[0].id, hl.target.elts[1].id
+        stops = [n for n in ast.walk(hl) if isinstance(n, ast.If) and (any(isinstance(x, ast.Return) for x in n.body) or any(isinstance(x, ast.Return) for x in n.orelse))]
+        accs = [s_ for s_ in ast.walk(hl) if isinstance(s_, ast.stmt) and as_increment(s_) is not None]
+        if len(stops) != 1 or len(accs) != 1:
+            raise AnalysisError(f"{h.qualname}: search loop shape not understood")
+        pol = any(isinstance(x, ast.Return) for x in stops[0].body)
+        ret = next(x for x in (stops[0].body if pol else stops[0].orelse) if isinstance(x, ast.Return))
+        acc = as_increment(accs[0])[0]
+        if not (isinstance(ret.value, ast.Tuple) and len(ret.value.elts) == 2 and all(isinstance(e_, ast.Name) for e_ in ret.value.elts)
+                and {e_.id for e_ in ret.value.elts} == {idx, acc}):
+            raise AnalysisError(f"{h.qualname}: the helper does not return (month index, hours before the month)")
+        order = [e_.id for e_ in ret.value.elts]
+        tg = [e_.id for e_ in call_stmt.targets[0].elts]
+        mon, el = (tg[0], tg[1]) if order[0] == idx else (tg[1], tg[0])
+        eh = Engine(prog, h, Hooks())
+        sh = State()
+        sh.env[ph] = Rat.atom("hours_in_year")
+        sh.env[px] = Rat.atom("X")
+        sh.env[idx] = Rat.atom("idx")
+        sh.env[mh] = Rat.atom("hours_in_year[idx]")
+        sh.env[acc] = Rat.atom("ACC")
+        c = eh.cond(stops[0].test, sh)
+        if not pol:
+            c = negate(c)
+        inc = eh.eval(as_increment(accs[0])[1], sh)
+        init0 = any(isinstance(s_, ast.Assign) and len(s_.targets) == 1 and isinstance(s_.targets[0], ast.Name) and s_.targets[0].id == acc
+                    and isinstance(s_.value, ast.Constant) and s_.value.value == 0 for s_ in h.node.body)
+        acc_ok = isinstance(inc, Rat) and inc.equals(Rat.atom("hours_in_year[idx]")) and init0
+        res.analysed(h.qualname)
+        return {"DIY": diy, "HIY": hiy, "MON": mon, "EL": el, "pre": fn_.body[:k_], "post": fn_.body[k_ + 1:], "helper": h, "hcond": c, "hacc_ok": acc_ok,
+                "X": b[px], "site": call_stmt}
+
     def roles(fi_):
         fn_ = fi_.node
         diy = next((n.targets[0].id for n in fn_.body if isinstance(n, ast.Assign) and isinstance(n.targets[0], ast.Name) and _list_ints(n.value) is not None and len(_list_ints(n.value)) >= 12), None)
         hiy = next((n.targets[0].id for n in fn_.body if isinstance(n, ast.Assign) and isinstance(n.targets[0], ast.Name) and isinstance(n.value, ast.ListComp)
                     and len(n.value.generators) == 1 and ast.unparse(n.value.generators[0].iter) == diy), None)
         loop = next((n for n in fn_.body if isinstance(n, ast.For)), None)
+        if diy is not None and hiy is not None and loop is None:
+            return helper_roles(fi_, diy, hiy)
         if diy is None or hiy is None or loop is None:
             raise AnalysisError(f"{fi_.qualname}: month table / hours list / search loop not found")
         idx = None
@@ -141,6 +202,8 @@ def check(prog: Program, tier: str) -> Result:
     st.env[R["DIY"]] = Rat.atom("days_in_year")
     acc0 = {k: v for k, v in st.env.items() if isinstance(v, Rat) and v.is_const()}
     st.env[R["MON"]] = Rat.atom("M")
+    if "helper" in R:
+        st.env[R["EL"]] = sym.dot(sym.elem_atom("hours_in_year", 0), Rat.atom("M"))
     run(eng, R["post"], st)
     rets = [r for r in ast.walk(fi.node) if isinstance(r, ast.Return)]
     if len(rets) != 1 or not isinstance(rets[0].value, ast.Tuple) or len(rets[0].value.elts) != 3:
@@ -160,12 +223,29 @@ def check(prog: Program, tier: str) -> Result:
     if not okh:
         res.violation("R19.1", f"time-convert|hour|{vkey(h_v)[:40]}", prog.loc(fi, rets[0]), q, f"hour of day is {vkey(h_v)[:120]} instead of h_l mod 24 + 1 with h_l = hours - sum(hours_in_year[0:month])")
     # month search: first month whose cumulative hours reach the hour index (0-based): sum + h[idx] - 1 >= hours
-    loop, brk = R["loop"], R["brk"]
     from ..model import as_increment
 
-    accs = [s_ for s_ in ast.walk(loop) if isinstance(s_, ast.stmt) and as_increment(s_) is not None]
+    if "helper" in R:
+        from ..paths import Cond, cmp_is
+
+        s0 = State()
+        s0.env[hours_p] = Rat.atom("hours")
+        run(eng, pre, s0)
+        xv = eng.eval(R["X"], s0)
+        ch = R["hcond"]
+        okh_ = False
+        if isinstance(xv, Rat) and ch.kind == "cmp":
+            c2 = Cond("cmp", ch.a.subs({"X": xv}), ch.s)
+            okh_ = R["hacc_ok"] and cmp_is(c2, Rat.atom("ACC") + Rat.atom("hours_in_year[idx]") - Rat.const(1) - Rat.atom("hours"), "0+")
+        res.ob("R19.1", f"ghe_time_convert: month = first one with cumulative hours - 1 >= hour index (0-based) - through the helper {R['helper'].name}", okh_, prog.loc(fi, R["site"]))
+        if not okh_:
+            res.violation("R19.1", "time-convert|month-search", prog.loc(fi, R["site"]), q,
+                          f"the month search (helper {R['helper'].name}, called with {ast.unparse(R['X'])}) stops on '{ch.key()[:120]}' with X = {vkey(xv)[:40]}: "
+                          "for a 0-based hour index it must be 'hours before the month + hours of the month - 1 >= index'; the first hour of a month is otherwise labelled as the previous month")
+    loop, brk = R.get("loop"), R.get("brk")
+    accs = [s_ for s_ in ast.walk(loop) if isinstance(s_, ast.stmt) and as_increment(s_) is not None] if loop is not None else []
     ok = False
-    if len(accs) == 1 and any(accs[0] is x for b_ in R["go"] for x in ast.walk(b_)):
+    if "helper" not in R and len(accs) == 1 and any(accs[0] is x for b_ in R["go"] for x in ast.walk(b_)):
         ACC = as_increment(accs[0])[0]
         e2 = Engine(prog, fi, Hooks())
         s2 = State()
@@ -184,9 +264,10 @@ def check(prog: Program, tier: str) -> Result:
         inc = e2.eval(as_increment(accs[0])[1], s2)
         a0 = acc0.get(ACC)
         ok = ok and isinstance(inc, Rat) and inc.equals(Rat.atom("hours_in_year[idx]")) and a0 is not None and a0.is_zero()
-    res.ob("R19.1", "ghe_time_convert: month = first one with cumulative hours - 1 >= hour index (0-based), cumulative sum (from 0) advanced otherwise", ok, prog.loc(fi, brk))
-    if not ok:
-        res.violation("R19.1", "time-convert|month-search", prog.loc(fi, brk), q, "the month search of ghe_time_convert no longer selects the first month whose last hour index (cumulative hours - 1) reaches the given 0-based hour")
+    if "helper" not in R:
+        res.ob("R19.1", "ghe_time_convert: month = first one with cumulative hours - 1 >= hour index (0-based), cumulative sum (from 0) advanced otherwise", ok, prog.loc(fi, brk))
+        if not ok:
+            res.violation("R19.1", "time-convert|month-search", prog.loc(fi, brk), q, "the month search of ghe_time_convert no longer selects the first month whose last hour index (cumulative hours - 1) reaches the given 0-based hour")
     # hours_to_month closed form
     q = f"{OM}.hours_to_month"
     fi = prog.func(q)
@@ -199,6 +280,8 @@ def check(prog: Program, tier: str) -> Result:
     s3.env[R["DIY"]] = Rat.atom("days_in_year")
     run(e3, [s_ for s_ in R["pre"] if not (isinstance(s_, ast.Assign) and isinstance(s_.targets[0], ast.Name) and s_.targets[0].id in (R["DIY"], R["HIY"], R["MON"]))], s3)
     s3.env[R["MON"]] = Rat.atom("M")
+    if "helper" in R:
+        s3.env[R["EL"]] = sym.dot(sym.elem_atom("hours_in_year", 0), Rat.atom("M"))
     run(e3, R["post"], s3)
     # month search of hours_to_month: first month whose cumulative hours reach the hours left in the current year
     from ..paths import cmp_is, negate
@@ -208,15 +291,24 @@ def check(prog: Program, tier: str) -> Result:
     s4.env[R["HIY"]] = Rat.atom("hours_in_year")
     s4.env[R["DIY"]] = Rat.atom("days_in_year")
     run(e3, [s_ for s_ in R["pre"] if not (isinstance(s_, ast.Assign) and isinstance(s_.targets[0], ast.Name) and s_.targets[0].id in (R["DIY"], R["HIY"], R["MON"]))], s4)
-    s4.env[R["IDX"]] = Rat.atom("idx")
-    run(e3, [s_ for s_ in R["loop"].body if s_ is not R["brk"]], s4)
-    c4 = e3.cond(R["brk"].test, s4)
-    if not R["pol"]:
-        c4 = negate(c4)
     Y4 = sym.call("sum", [Rat.atom("hours_in_year")])
     left4 = Rat.atom("hours") - sym.call("floor", [Rat.atom("hours") / Y4]) * Y4
-    cum4 = sym.dot(sym.elem_atom("hours_in_year", 0), Rat.atom("idx") + Rat.const(1))
-    oks = cmp_is(c4, cum4 - left4, "0+")
+    if "helper" in R:
+        from ..paths import Cond
+
+        xv4 = e3.eval(R["X"], s4)
+        ch = R["hcond"]
+        c4 = Cond("cmp", ch.a.subs({"X": xv4}), ch.s) if isinstance(xv4, Rat) and ch.kind == "cmp" else ch
+        oks = R["hacc_ok"] and cmp_is(c4, Rat.atom("ACC") + Rat.atom("hours_in_year[idx]") - left4, "0+")
+        R = dict(R, brk=R["site"])
+    else:
+        s4.env[R["IDX"]] = Rat.atom("idx")
+        run(e3, [s_ for s_ in R["loop"].body if s_ is not R["brk"]], s4)
+        c4 = e3.cond(R["brk"].test, s4)
+        if not R["pol"]:
+            c4 = negate(c4)
+        cum4 = sym.dot(sym.elem_atom("hours_in_year", 0), Rat.atom("idx") + Rat.const(1))
+        oks = cmp_is(c4, cum4 - left4, "0+")
     res.ob("R19.1", "hours_to_month: month = first one whose cumulative hours reach the hours left in the current year (hours - whole years)", oks, prog.loc(fi, R["brk"]))
     if not oks:
         res.violation("R19.1", "hours-to-month|month-search", prog.loc(fi, R["brk"]), q,
@@ -328,7 +420,13 @@ def check(prog: Program, tier: str) -> Result:
     return res
 
 
+_CAL_OLD = '    @staticmethod\n    def hours_to_month(hours):\n        days_in_year = [31, 28, 31, 30, 31, 30, 31, 31, 30, 31, 30, 31]\n        hours_in_year = [HRS_IN_DAY * x for x in days_in_year]\n        n_years = floor(hours / sum(hours_in_year))\n        frac_month = n_years * len(days_in_year)\n        month_in_year = 0\n        for idx, _ in enumerate(days_in_year):\n            hours_left = hours - n_years * sum(hours_in_year)\n            if sum(hours_in_year[0 : idx + 1]) >= hours_left:\n                month_in_year = idx\n                break\n        frac_month += month_in_year\n        h_l = hours - n_years * sum(hours_in_year) - sum(hours_in_year[0:month_in_year])\n        frac_month += h_l / (hours_in_year[month_in_year])\n        return frac_month\n\n    @staticmethod\n    def ghe_time_convert(hours):\n        days_in_year = [31, 28, 31, 30, 31, 30, 31, 31, 30, 31, 30, 31]\n        hours_in_year = [HRS_IN_DAY * x for x in days_in_year]\n        month_in_year = 0\n        year_hour_sum = 0\n        for idx, _ in enumerate(days_in_year):\n            hours_left = hours\n            if year_hour_sum + hours_in_year[idx] - 1 >= hours_left:\n                month_in_year = idx\n                break\n            else:\n                year_hour_sum += hours_in_year[idx]\n        h_l = hours - sum(hours_in_year[0:month_in_year])\n        day_in_month = floor(h_l / HRS_IN_DAY) + 1\n        hour_in_day = h_l % HRS_IN_DAY + 1\n        return month_in_year + 1, day_in_month, hour_in_day\n'
+_CAL_HELPER_BAD = '    @staticmethod\n    def _locate_month(hours_in_year, hour_of_year):\n        elapsed = 0\n        for idx, month_hours in enumerate(hours_in_year):\n            if elapsed + month_hours >= hour_of_year:\n                return idx, elapsed\n            elapsed += month_hours\n        return 0, 0\n\n    @staticmethod\n    def hours_to_month(hours):\n        days_in_year = [31, 28, 31, 30, 31, 30, 31, 31, 30, 31, 30, 31]\n        hours_in_year = [HRS_IN_DAY * x for x in days_in_year]\n        n_years = floor(hours / sum(hours_in_year))\n        hours_left = hours - n_years * sum(hours_in_year)\n        month_in_year, elapsed = OutputManager._locate_month(hours_in_year, hours_left)\n        frac_month = n_years * len(days_in_year) + month_in_year\n        frac_month += (hours_left - elapsed) / (hours_in_year[month_in_year])\n        return frac_month\n\n    @staticmethod\n    def ghe_time_convert(hours):\n        days_in_year = [31, 28, 31, 30, 31, 30, 31, 31, 30, 31, 30, 31]\n        hours_in_year = [HRS_IN_DAY * x for x in days_in_year]\n        month_in_year, elapsed = OutputManager._locate_month(hours_in_year, hours)\n        h_l = hours - elapsed\n        day_in_month = floor(h_l / HRS_IN_DAY) + 1\n        hour_in_day = h_l % HRS_IN_DAY + 1\n        return month_in_year + 1, day_in_month, hour_in_day\n'
+_CAL_HELPER_OK = '    @staticmethod\n    def _locate_month(hours_in_year, hour_of_year):\n        elapsed = 0\n        for idx, month_hours in enumerate(hours_in_year):\n            if elapsed + month_hours >= hour_of_year:\n                return idx, elapsed\n            elapsed += month_hours\n        return 0, 0\n\n    @staticmethod\n    def hours_to_month(hours):\n        days_in_year = [31, 28, 31, 30, 31, 30, 31, 31, 30, 31, 30, 31]\n        hours_in_year = [HRS_IN_DAY * x for x in days_in_year]\n        n_years = floor(hours / sum(hours_in_year))\n        hours_left = hours - n_years * sum(hours_in_year)\n        month_in_year, elapsed = OutputManager._locate_month(hours_in_year, hours_left)\n        frac_month = n_years * len(days_in_year) + month_in_year\n        frac_month += (hours_left - elapsed) / (hours_in_year[month_in_year])\n        return frac_month\n\n    @staticmethod\n    def ghe_time_convert(hours):\n        days_in_year = [31, 28, 31, 30, 31, 30, 31, 31, 30, 31, 30, 31]\n        hours_in_year = [HRS_IN_DAY * x for x in days_in_year]\n        month_in_year, elapsed = OutputManager._locate_month(hours_in_year, hours + 1)\n        h_l = hours - elapsed\n        day_in_month = floor(h_l / HRS_IN_DAY) + 1\n        hour_in_day = h_l % HRS_IN_DAY + 1\n        return month_in_year + 1, day_in_month, hour_in_day\n'
+
 VARIANTS = [
+    Variant("month search extracted into a shared helper, called with the 0-based index as if it were elapsed hours (seeded C19_b)", "break", [(OUTM, _CAL_OLD, _CAL_HELPER_BAD)], "R19.1"),
+    Variant("month search extracted into a shared helper, ghe_time_convert passes index + 1", "benign", [(OUTM, _CAL_OLD, _CAL_HELPER_OK)]),
     Variant("hours_to_month: month search compares against the total hours (seeded C19)", "break",
             [(OUTM, """            hours_left = hours - n_years * sum(hours_in_year)
             if sum(hours_in_year[0 : idx + 1]) >= hours_left:""", """            if sum(hours_in_year[0 : idx + 1]) >= hours:""")], "R19.1"),
